@@ -75,6 +75,33 @@ Theorem C02_sep_self : forall O st r st' s',
 Proof. exact sep_self_lemma. Qed.
 Print Assumptions C02_sep_self.
 
+(* taking a phase out of a multi-phase stream, ms.separate_out(ms[p]) (or a phase of another stream): the view shares
+   its flow data with the receiver without being the receiver; what is left is H(receiver before) - H(view before) *)
+Theorem C02_sep_view_energy : forall O st r j p st' sr sj v s',
+  contracts O ->
+  separate_view O st r j p = Ok st' ->
+  sget st r = Ok sr -> sget st j = Ok sj -> view sj p = Ok v -> sget st' r = Ok s' ->
+  ~ total s' == 0 ->
+  getH O s' == getH O sr - getH O v.
+Proof. exact sep_view_energy_lemma. Qed.
+Print Assumptions C02_sep_view_energy.
+
+(* mixing with phase views ms[p] among the inlets, the receiver possibly being their parent: same balance, the views
+   entering with the enthalpy they have when the call starts *)
+Theorem C02_mix_views_energy : forall O st r vs others Q0 st' vstreams ins s',
+  contracts O -> Forall wfs st ->
+  views st vs = Ok vstreams ->
+  mix_views O st r vs others Q0 = Ok st' ->
+  let ext := st ++ vstreams in
+  let ot := map IStream (seq (length st) (length vstreams)) ++ others in
+  streams_of ext ot <> [] ->
+  sget_all ext (streams_of ext ot) = Ok ins ->
+  sget st' r = Ok s' -> (r < length st)%nat ->
+  ~ total s' == 0 ->
+  getH O s' == qsum (map (getH O) ins) + (Q0 + heats ot).
+Proof. exact mix_views_energy_lemma. Qed.
+Print Assumptions C02_mix_views_energy.
+
 Theorem C02_sep_frame : forall O st r o st',
   separate_out O st r o = Ok st' ->
   length st' = length st /\ forall k, k <> r -> nth_error st' k = nth_error st k.
@@ -317,4 +344,23 @@ Example C02_history_nonvacuous :
 Proof.
   split; [repeat constructor|]. split; [vm_compute; reflexivity|]. split; [vm_compute; discriminate|].
   vm_compute; reflexivity.
+Qed.
+
+Example C02_sep_view_nonvacuous :
+  exists st' s' v, separate_view exO exSt 2 2 3%nat = Ok st' /\ sget st' 2 = Ok s' /\ view exM 3%nat = Ok v /\
+                   ~ total s' == 0 /\ getH exO s' == getH exO exM - getH exO v /\ ~ getH exO v == 0.
+Proof.
+  eexists; eexists; eexists. split; [vm_compute; reflexivity|]. split; [vm_compute; reflexivity|].
+  split; [vm_compute; reflexivity|]. split; [vm_compute; discriminate|]. split; [vm_compute; reflexivity|].
+  vm_compute; discriminate.
+Qed.
+
+(* the receiver's own gas phase is its only non-empty inlet, plus heat *)
+Definition exG := mkS true [(3%nat, [1; 0; 4]); (4%nat, [0; 0; 0])] 350 101325.
+Example C02_mix_views_nonvacuous :
+  exists st' s' v, mix_views exO [exG] 0 [(0%nat, 3%nat)] [] 512 = Ok st' /\ sget st' 0 = Ok s' /\ view exG 3%nat = Ok v /\
+                   ~ total s' == 0 /\ getH exO s' == getH exO v + 512.
+Proof.
+  eexists; eexists; eexists. split; [vm_compute; reflexivity|]. split; [vm_compute; reflexivity|].
+  split; [vm_compute; reflexivity|]. split; [vm_compute; discriminate|]. vm_compute; reflexivity.
 Qed.
